@@ -23,15 +23,20 @@ CatsOf(p) == CASE p = "C02" -> {1} [] p = "C10" -> {1, 2, 3} [] p = "C06" -> {4}
 Cats == 1..NCat
 
 (* start expressions: every other lane starts inside the domain of the operations of Prop *)
-NumStarts == {Var("ints"), Var("decs"), Var("seven"), Var("big"), Var("neg"), Var("min"), Var("half"), Fld(Fld(Pat, "telecom"), "rank"), Fld(Pat, "multipleBirth")} \cup NumLits
-StrStarts == {Var("strs"), Var("uni"), Var("uni1"), Var("digits"), Fld(Fld(Pat, "name"), "given"), Fld(Fld(Pat, "name"), "family"), Fld(Pat, "id"), Fld(Fld(Pat, "address"), "line"),
+ObsNum == {Fld(Fld(Fld(Obn, "referenceRange"), "low"), "value"), Fld(Fld(Fld(Obn, "referenceRange"), "high"), "value"), Fld(Fld(Obn, "value"), "value"),
+           Ix(Fld(Fld(Obn, "component"), "value"), 1)}
+ObsStr == {Fld(Fld(Fld(Obn, "component"), "code"), "text"), Fld(Fld(Obn, "value"), "unit"), Ix(Fld(Fld(Obn, "component"), "value"), 0), Fld(Fld(Obn, "subject"), "reference")}
+ObsTemporal == {Fld(Obn, "effective"), Fld(Obn, "issued"), Ix(Fld(Fld(Obn, "component"), "value"), 3), Ix(Fld(Fld(Obn, "component"), "value"), 4)}
+NumStarts == ObsNum \cup {Var("ints"), Var("decs"), Var("seven"), Var("big"), Var("neg"), Var("min"), Var("half"), Fld(Fld(Pat, "telecom"), "rank"), Fld(Pat, "multipleBirth")} \cup NumLits
+StrStarts == ObsStr \cup {Var("strs"), Var("uni"), Var("uni1"), Var("digits"), Fld(Fld(Pat, "name"), "given"), Fld(Fld(Pat, "name"), "family"), Fld(Pat, "id"), Fld(Fld(Pat, "address"), "line"),
               Fld(Fld(Pat, "identifier"), "value")} \cup StrLits
 StartsFor(p) == CASE p = "C08" -> NumStarts [] p = "C14" -> StrStarts
-                  [] p = "C13" -> NumStarts \cup StrStarts \cup BoolLits \cup DateLits \cup DtLits \cup TimeLits
+                  [] p = "C13" -> ObsTemporal \cup {Fld(Fld(Obn, "component"), "value")} \cup NumStarts \cup StrStarts \cup BoolLits \cup DateLits \cup DtLits \cup TimeLits
                                   \cup {Fld(Pat, "birthDate"), Fld(Pat, "active"), Var("mixed"), Fld(Fld(Pat, "meta"), "lastUpdated")}
-                  [] p = "C09" -> DateLits \cup DtLits \cup TimeLits \cup {Fld(Pat, "birthDate"), Fld(Fld(Pat, "meta"), "lastUpdated"),
+                  [] p = "C09" -> ObsTemporal \cup DateLits \cup DtLits \cup TimeLits \cup {Fld(Pat, "birthDate"), Fld(Fld(Pat, "meta"), "lastUpdated"),
                                                                       Fld(Fld(Fld(Pat, "birthDate"), "extension"), "value"), Fld(Fld(Fld(Pat, "address"), "period"), "start")}
-                  [] p = "C05" -> NumStarts \cup StrStarts \cup DateLits \cup DtLits \cup TimeLits \cup {Fld(Pat, "birthDate"), Fld(Fld(Pat, "meta"), "lastUpdated")}
+                  [] p = "C12" -> Starts \cup {Fld(Fld(Obn, "component"), "value"), Fld(Obn, "value"), Fld(Obn, "component"), Fld(Obn, "effective")}
+                  [] p = "C05" -> ObsTemporal \cup NumStarts \cup StrStarts \cup DateLits \cup DtLits \cup TimeLits \cup {Fld(Pat, "birthDate"), Fld(Fld(Pat, "meta"), "lastUpdated")}
                   [] OTHER -> Starts
 StartSeq(l) == SetToSeq(IF Key(l, 0, 5) % 2 = 0 THEN StartsFor(Prop) ELSE Starts)
 Init == /\ lane \in 1..Lanes
